@@ -38,6 +38,19 @@ def run(tier, seed, verdict):
     drun = runner.ExportRun("MC_NixDimLink", "MC_C05_dims_quick.cfg" if quick else "MC_C05_dims.cfg", seed, "harness.dimlink",
                             opts={"ranks": RANKS}, stride=8 if quick else 6,
                             label=lambda tx: dimlink.klass(tx["act"]) + ":" + tx["act"]["out"]).run()
+    # ... and to columns of a data frame (index = column, unit = the column's unit, label = the column's name)
+    frun = runner.ExportRun("MC_NixDimLink", "MC_C05_dims_frame.cfg", seed + 1, "harness.dimlink",
+                            opts={"ranks": {"t1": 1, "fr": 0}}, stride=4 if quick else 1,
+                            label=lambda tx: dimlink.klass(tx["act"]) + ":" + tx["act"]["out"]).run()
+    drun.findings.extend(frun.findings)
+    cov["models"].append(frun.model_summary())
+    cov["states"] += frun.res.distinct
+    cov["transitions"] += frun.stats["exported"]
+    cov["evaluations"] += frun.stats["replayed"]
+    cov["traces_validated_against_impl"] += frun.stats["replayed"] - frun.counters.get("truncated", 0)
+    cov["distinct_nontrivial"] += frun.stats["replayed"] - frun.counters.get("truncated", 0)
+    if frun.res.violation is not None:
+        verdict.violation("tlc/NixDimLink(frame)/" + frun.res.violation[:80], {"tlc": frun.res.violation})
     if drun.res.violation is not None:
         verdict.violation("tlc/NixDimLink/" + drun.res.violation[:80], {"tlc": drun.res.violation, "trace": drun.res.error_trace[:40]})
     foreign = 0
